@@ -31,8 +31,8 @@ LevelIsLayer == TLCGet("level") = DepthIn(Layers(Graphs[gi]), s)
 AlwaysAgree ==
   \A i \in DOMAIN Graphs[gi].props :
      LET p == Graphs[gi].props[i] IN
-     /\ (p.kind = "always" /\ ~Violated(Graphs[gi], p)) => s \in Sat(p)
-     /\ (p.kind = "sometimes" /\ ~Witnessed(Graphs[gi], p)) => s \notin Sat(p)
+     /\ (p.kind = "always" /\ ~Violated(Graphs[gi], p)) => SatAt(p, s)
+     /\ (p.kind = "sometimes" /\ ~Witnessed(Graphs[gi], p)) => ~SatAt(p, s)
 \* eventually: a state of the non-sat region that is terminal is a counterexample
 EvAgree ==
   \A i \in DOMAIN Graphs[gi].props :
